@@ -3173,7 +3173,9 @@ func init() {
 			c.Floor("R11i", 3, "instance isolation of the stream readers")
 		}
 		if c.CountRule("R11j") == 0 {
-			importRules(c, "C08", map[string]string{"R08e": "R11j"})
+			// R11k (= R08i): input bytes / charset decoding are not rewritten (seed C11-16); R11l (= R08b): names and text are
+			// stored as the decoder delivers them (seed C11-17: attribute values normalised by a Replacer)
+			importRules(c, "C08", map[string]string{"R08e": "R11j", "R08i": "R11k", "R08b": "R11l"})
 			c.Floor("R11j", 1, "character data reaches text-node creation unconditionally")
 		}
 	})
@@ -3185,7 +3187,7 @@ func init() {
 			c.Floor("R15p", 1, "uses of cached *xpath.Expr")
 		}
 	})
-	addDoc("C11", "R11h (= C12 R12b) pooled nodes are blank. R11i (= R04j) instance isolation of the readers. R11j (= C08 R08e) every CharData token is attached.")
+	addDoc("C11", "R11h (= C12 R12b) pooled nodes are blank. R11i (= R04j) instance isolation of the readers. R11j (= C08 R08e) every CharData token is attached. R11k (= C08 R08i) the decoder's input and charset handling are not rewritten. R11l (= C08 R08b) names and text are stored as the decoder delivers them.")
 	addDoc("C15", "R15p (= C14 R14c) shared compiled expressions are used through cloning entry points only.")
 }
 
